@@ -483,6 +483,20 @@ func (g *Grammar) RecursiveNTs() []bool {
 	return out
 }
 
+// RefModelled: every operator of the grammar has a meaning in the reference semantics (the core set plus LeftTrim and End;
+// not RightTrim - it moves its operand in place, K1 - Single, SuppressError or ReturnSingle)
+func (g *Grammar) RefModelled() bool {
+	ok := true
+	for _, b := range g.NTs {
+		Walk(b, func(e *Expr) {
+			if e.Op > OpNT && e.Op != OpLTrim && e.Op != OpEnd {
+				ok = false
+			}
+		})
+	}
+	return ok
+}
+
 // HasExtendedOps: the grammar uses operators the reference semantics does not model (trims, Single, ...)
 func (g *Grammar) HasExtendedOps() bool {
 	ext := false
